@@ -157,7 +157,9 @@ def str_value(avoid: frozenset = frozenset()):
         st.sampled_from(["", " ", "// c", "===END===", "---", "A::B", "[a,b]", "60%", "a\\nb", "tab\there", "x\ny",
                          "say \"hi\"", "back\\slash", "#tag", "a -> b", "a vs b", "A+B", "p|q", "x & y", "k::v",
                          "```", "$", "§", "<x>", "{y}", "a,b", "trailing ", " leading", "café", "é",
-                         "\U0001F600 smile", "ünïcödé", "//x", "//cdn.example.com/lib.js", "/usr/bin", "./x", "--flag", "-x"]).map(S("special")),
+                         "\U0001F600 smile", "ünïcödé", "//x", "//cdn.example.com/lib.js", "/usr/bin", "./x", "--flag", "-x",
+                         # expression shapes with a reserved word as an operand (must stay quoted)
+                         "draft→null", "review→false", "a⊕true", "x⇌vs", "null→a", "true∧b", "a→b→null", "NAME<null>", "NAME<true,b>"]).map(S("special")),
         hostile.map(S("hostile")), hostile.map(S("hostile")),
         nearbare().map(S("nearbare")), nearbare().map(S("nearbare")),
     ]
